@@ -55,14 +55,17 @@ CollCall(z, icpt, store) ==
       \* for the code but outside the id alphabet of the model)
       noid == op \in {"Update", "Add"} /\ Flip(z, 20)
   IN [op |-> op, id |-> IF noid THEN "" ELSE R(RawIds(icpt)),
-      msg |-> Body(z), o |-> IF noid THEN [o EXCEPT !.gen = TRUE] ELSE o, mask |-> R(ReadMasks),
+      \* (a fifth of the writes repeat a message that is stored somewhere: a write that "changes nothing" still
+      \*  goes through the masks, the reset mask in particular)
+      msg |-> IF Flip(z, 20) /\ store # <<>> THEN R({store[k].body : k \in 1..Len(store)}) ELSE Body(z),
+      o |-> IF noid THEN [o EXCEPT !.gen = TRUE] ELSE o, mask |-> R(ReadMasks),
       inc |-> IF Flip(z, 50) THEN NoInc ELSE RandInc(z)]
 
 ValCall(z, val) ==
   LET op == IF Focus = "c01" THEN R({"Set", "Set", "Set", "VGet", "Tick"}) ELSE R({"Set", "Set", "Set", "Set", "Tick"})
       o0 == Opts(z, IF val.has THEN <<[id |-> "a", body |-> val.v, ct |-> 0]>> ELSE <<>>)
       o  == IF Focus = "c01" \/ Flip(z, 30) THEN o0 ELSE PlainOpts
-  IN [op |-> op, id |-> "", msg |-> Body(z), o |-> o, mask |-> R(ReadMasks), inc |-> NoInc]
+  IN [op |-> op, id |-> "", msg |-> IF Flip(z, 20) /\ val.has THEN val.v ELSE Body(z), o |-> o, mask |-> R(ReadMasks), inc |-> NoInc]
 
 Sub(z) == [pid |-> IF Focus = "c04" /\ Flip(z, 35) THEN R({"a", "b", "g2"}) ELSE "",
            updatesOnly |-> Flip(z, 30), mask |-> R(ReadMasks \ {Mask(<<<<"f">>, <<"i">>>>)}),
